@@ -18,7 +18,7 @@ def inf_stream(rng, count):
         elif r == 2:
             out.append(feasible_margin(rng, rng.choice([1, 5, 30, 60, 120, 400, 1100, 3000]), name="fm%d" % i))
         elif r == 3:
-            out.append(face_only(rng, name="fo%d" % i))
+            out.append(face_only(rng, name="fo%d" % i) if i % 16 != 3 else tiny_coef(rng, rng.choice([20, 38, 40, 45, 60, 90, 200]), rng.random() < 0.6, name="tc%d" % i))
         elif r in (4, 5):
             lp = random_lp(rng, name="r%d" % i)
             out.append(lp)
